@@ -27,7 +27,11 @@ fn layout_doc(expires: &str) -> serde_json::Value {
 }
 
 fn lib_read(s: &str) -> Option<(i64, u32, String)> {
-    let l: LayoutMetadata = serde_json::from_value(layout_doc(s)).ok()?;
+    let doc = layout_doc(s);
+    let l: LayoutMetadata = match crate::proto::guarded(move || serde_json::from_value::<LayoutMetadata>(doc)) {
+        Ok(r) => r.ok()?,
+        Err(()) => return Some((i64::MIN, 0, "the layout reader panicked".into())),
+    };
     let out = serde_json::to_value(&l).ok()?;
     let text = out.get("expires")?.as_str()?.to_string();
     Some((l.expires.timestamp(), l.expires.timestamp_subsec_nanos(), text))
@@ -259,7 +263,9 @@ pub fn fmt_case(sink: &mut Sink, r: &mut Rng) {
     sink.op(&format!("fmttime {} {}", secs, nanos), &hexs(&text), true);
     sink.stat(&format!("fmttime/{}", if (0..=9999).contains(&year_of(secs)) { "year-0000-9999" } else { "year-outside" }));
     // through the library: builder -> serialise
-    if let Ok(l) = in_toto::models::LayoutMetadataBuilder::new().expires(dt).build() {
+    let built = crate::proto::guarded(move || in_toto::models::LayoutMetadataBuilder::new().expires(dt).build());
+    sink.oracle(built.is_ok(), "building a layout with a representable expiry panicked", &format!("fmttime {} {}", secs, nanos));
+    if let Ok(Ok(l)) = built {
         let j = serde_json::to_value(&l).unwrap();
         let lt = j.get("expires").and_then(|v| v.as_str()).unwrap_or("").to_string();
         sink.oracle(lt == text, "the layout writer's expiry text is not chrono's whole-second UTC text", &format!("fmttime {} {}", secs, nanos));
